@@ -143,7 +143,8 @@ def scout_tree(C, wu, wd, mu, md, p, q, w0):
     to steer instance selection (unconstrained vs constrained mix; numbers small enough for TLC's 32-bit
     rationals); it judges nothing - whether an instance is unconstrained / overflows is reported by TLC.
     returns (smallest candidate ratio or half-step overlap ratio, largest weight, largest |numerator| or
-    denominator among weights, overlaps and branch probabilities)"""
+    denominator among weights, overlaps and branch probabilities, number of reachable states at which both
+    field values are rejected)"""
     n, nu = len(wu), len(wu[0])
     nd = len(wd[0])
     N = nu + nd
@@ -170,7 +171,8 @@ def scout_tree(C, wu, wd, mu, md, p, q, w0):
     a, b = mm(mu, a0), mm(md, b0)
     o1 = ov(a, b)
     if o0 == 0 or o1 == 0:
-        return F(-1), F(0), 1 << 40
+        return F(-1), F(0), 1 << 40, 0
+    ndead = 0
     lo = o1 / o0
     wmax = F(0)
     w1 = w0 * lo
@@ -196,11 +198,13 @@ def scout_tree(C, wu, wd, mu, md, p, q, w0):
             nxt.append((a2, b2, o2))
         lo = min(lo, rs[0], rs[1])
         tot = max(rs[0], F(0)) + max(rs[1], F(0))
+        if tot == 0 and w > 0:
+            ndead += 1
         for x in (0, 1):
             if rs[x] > 0:
                 see(nxt[x][2], w * tot / 2, rs[x] / tot)
                 stack.append((nxt[x][0], nxt[x][1], nxt[x][2], w * tot / 2, k + 1))
-    return lo, wmax, big[0]
+    return lo, wmax, big[0], ndead
 
 
 def half_mats(n, adj, heavy):
@@ -232,15 +236,17 @@ def half_mats(n, adj, heavy):
 
 
 def gen_instance(iid, rng, n, nu, nd, kind, *, uniform=False, pairs=True, spin_m=False, lattice=None,
-                 want_free=True):
-    """one exact instance.  want_free: steer (by a float pre-simulation) towards an instance on which no
-    constraint is active on any field path; otherwise towards one where a constraint IS active.  Whether it
-    really is free is decided by TLC (sum.allfree)."""
+                 want="free"):
+    """one exact instance.  want: steer (by scout_tree) towards an instance on which no constraint is active on
+    any field path ("free"), on which one is ("constrained"), or on which some reachable state rejects both
+    field values ("dead").  What the instance really is, is decided by TLC (sum.allfree, dead states)."""
+    want_free = want == "free"
+    tries = 400 if want != "dead" else 4000
     N = nu + nd
     heavy = n >= 4 and N >= 4
     lat, adj, _ = lattice_of(n, rng, lattice)
     best = None
-    for attempt in range(400):
+    for attempt in range(tries):
         C, uni = gen_trial(rng, kind, n, nu, nd, uniform, hi=2 if heavy else 3)
         if want_free:
             # a walker near the block part of the trial: positive overlaps, like a walker late in a CPMC run
@@ -269,7 +275,7 @@ def gen_instance(iid, rng, n, nu, nd, kind, *, uniform=False, pairs=True, spin_m
         p, q = HS_PAIRS[int(rng.integers(0, 1 if heavy else len(HS_PAIRS)))]
         w0c = [Fraction(1), Fraction(1, 2), Fraction(3, 4), Fraction(2), Fraction(1, 10), Fraction(1, 50)]
         w0 = w0c[int(rng.integers(0, 1 if heavy else 4))]
-        lo, wmax, big = scout_tree(C, wu, wd, mu, md, p, q, w0)
+        lo, wmax, big, ndead = scout_tree(C, wu, wd, mu, md, p, q, w0)
         free = lo > Fraction(1, 1000)
         # initial weight: keep the final weight well below the cap of 100 on free instances
         if want_free and wmax > 50:
@@ -277,15 +283,16 @@ def gen_instance(iid, rng, n, nu, nd, kind, *, uniform=False, pairs=True, spin_m
             if not ok:
                 continue
             w0 = ok[0]
-            lo, wmax, big = scout_tree(C, wu, wd, mu, md, p, q, w0)
-        if attempt < 399 and (free != bool(want_free) or (want_free and big >= 1 << 28)):
+            lo, wmax, big, ndead = scout_tree(C, wu, wd, mu, md, p, q, w0)
+        if attempt < tries - 1 and (free != bool(want_free) or (want_free and big >= 1 << 28)
+                                    or (want == "dead" and (ndead == 0 or big >= 1 << 28))):
             continue
         js = {"id": iid, "n": n, "nu": nu, "nd": nd, "c": rmat(C), "wu": rmat(wu), "wd": rmat(wd), "w0": rq(w0),
               "mu": rmat(mu), "md": rmat(md), "hs": [rq(p), rq(q)], "cset": [[rq(a), rq(b)] for a, b in CSET],
               "pairs": bool(pairs), "lat": lat, "adj": adj.tolist()}
         best = {"id": iid, "n": n, "nu": nu, "nd": nd, "kind": kind, "uniform": uni, "C": C, "wu": wu, "wd": wd,
                 "mu": mu, "md": md, "p": p, "q": q, "w0": w0, "lat": lat, "adj": adj, "pairs": bool(pairs),
-                "want_free": bool(want_free), "json": js}
+                "want": want, "json": js}
         return best
     raise MachineryError("could not draw an instance with non-zero overlap")
 
